@@ -446,7 +446,10 @@ func mergeRowRanges(explicit []keyType, rrs []*btpb.RowRange) []simpleRange {
 		}
 		switch ek := rr.EndKey.(type) {
 		case *btpb.RowRange_EndKeyClosed:
-			sr.end = append(ek.EndKeyClosed, 0)
+			// an empty end key means "unbounded", as validateRowRanges reads it
+			if len(ek.EndKeyClosed) > 0 {
+				sr.end = append(ek.EndKeyClosed, 0)
+			}
 		case *btpb.RowRange_EndKeyOpen:
 			sr.end = ek.EndKeyOpen
 		}
